@@ -28,4 +28,32 @@ PROPS = {
         "trusted_base": [TB_URL, TB_HTTP, "base64 crate (BASE64_STANDARD) modelled in Model/Base64.lean, compared after decoding"],
         "assumptions": ["server-side recovery = strip 'Basic ', base64-decode, split at first ':', form-decode both halves"],
     },
+    "C07": {
+        "lean": ["OAuth2Model.Props.C07"],
+        "theorems": ["C07.next_facts", "C07.C07_pending_same", "C07.C07_slowdown_plus5", "C07.C07_failure_monotone",
+                     "C07.C07_failure_bounded", "C07.C07_no_panic", "C07.sleeps_prefix", "C07.waits_floor", "C07.run_cases",
+                     "C07.C07_floor", "C07.C07_alternation"],
+        "ops": ["poll"],
+        "signatures": ["C07:"],
+        "n": {"quick": 6000, "thorough": 300000},
+        "exhaustive_note": "thorough: all scripts up to length 5 over {pending, slow_down, failure} x 10 intervals x 5 ceilings",
+        "trusted_base": ["hand-written model lean/OAuth2Model/Model/Device.lean of request/process_response/compute_timeout",
+                         "std::time::Duration arithmetic (checked_mul, saturating_add) modelled as bounded Nat nanoseconds",
+                         "virtual clock / scripted HTTP client / recording sleep closure in the harness are the environment"],
+        "assumptions": ["real time and real sleeping are not exercised", "server interval is a u64 number of seconds"],
+    },
+    "C08": {
+        "lean": ["OAuth2Model.Props.C08"],
+        "theorems": ["C08.C08_timeout_choice", "C08.C08_unrepresentable", "C08.C08_representable", "C08.run_of_deadline",
+                     "C08.loop_guarded", "C08.C08_deadline", "C08.loop_first_decisive", "C08.C08_first_decisive",
+                     "C08.loop_expiry", "C08.loop_no_early_giveup", "C08.C08_unbuildable"],
+        "ops": ["poll"],
+        "signatures": ["C08:"],
+        "n": {"quick": 6000, "thorough": 300000},
+        "exhaustive_note": "thorough: all scripts up to length 5 x intervals x ceilings, both variants",
+        "trusted_base": ["hand-written model lean/OAuth2Model/Model/Device.lean",
+                         "chrono: TimeDelta::MAX and DateTime<Utc> MIN_UTC/MAX_UTC are read from chrono by the harness and passed to the model as parameters",
+                         "the blocking and the future-based loop are both run on every case and compared with the same model trace"],
+        "assumptions": ["clock values are those returned by the caller's time function (virtual clock)"],
+    },
 }
